@@ -83,9 +83,9 @@ def c05(chk):
     repo_tests(chk)
 
 
-def ast_model(chk, siblings, workers=12):
+def ast_model(chk, siblings, workers=12, relevant=("wf_tree", "panic"), nontrivial=("wf_len3",)):
     info, summ = vf.run_model(f"ast_{siblings}", "MC_Ast.tla", {"Siblings": siblings}, chk.outdir, workers=workers, timeout=3000)
-    chk.add_model(info, summ, {"wf_tree", "panic"}, ["wf_len3"],
+    chk.add_model(info, summ, set(relevant), list(nontrivial),
                   note=f"MC_Ast.tla: ASTs of depth <= 2 over all 25 operators and application (siblings: {siblings}) x 3 renderings")
 
 
@@ -117,7 +117,11 @@ def c14(chk):
         tokens(chk, "core", 4, rel, ["wf_with_identifiers"])
         tokens(chk, "call", 5, rel, ["wf_with_identifiers"])
         tokens(chk, "idents", 5, rel, ["wf_with_identifiers"])
+        # occurrences below parentheses: assignments, calls and prefix operators nested under every operator (depth-2 ASTs)
+        ast_model(chk, "few", relevant=rel, nontrivial=("wf_with_identifiers",))
     else:
+        ast_model(chk, "all", workers=16, relevant=rel, nontrivial=("wf_with_identifiers",))
+        ast_model(chk, "cater", workers=16, relevant=rel, nontrivial=("wf_with_identifiers",))
         tokens(chk, "core", 6, rel, ["wf_with_identifiers"], workers=16, timeout=3000)
         tokens(chk, "call", 6, rel, ["wf_with_identifiers"], workers=16)
         tokens(chk, "idents", 6, rel, ["wf_with_identifiers"], workers=16)
